@@ -14,6 +14,20 @@ from py_stringmatching.similarity_measure.levenshtein import Levenshtein
 MAXV = 6
 
 
+def _module_overlap(set1, set2):
+    return len(set(set1) & set(set2))
+
+
+def _overlap_fn():
+    """The library's module-level overlap function if it is where it used to be, else an equivalent
+    module-level function of the harness (the property only needs *a* plain function)."""
+    try:
+        from py_stringsimjoin.utils.simfunctions import overlap
+        return overlap
+    except Exception:       # noqa: BLE001 - internal layout changed: not this check's business
+        return _module_overlap
+
+
 def _lam(a, b):
     return float(len(a) - len(b))
 
@@ -24,9 +38,7 @@ SIMS = {
                        lambda a, b: 1.0 if not set(a) and not set(b) else
                        (0 if not set(a) or not set(b) else
                         float(len(set(a) & set(b))) / float(len(set(a) | set(b))))),
-    'overlap-func': (['ws', False], lambda: __import__('py_stringsimjoin.utils.simfunctions',
-                                                         fromlist=['overlap']).overlap,
-                     lambda a, b: len(set(a) & set(b))),
+    'overlap-func': (['ws', False], lambda: _overlap_fn(), lambda a, b: len(set(a) & set(b))),
     # functions that see whether the tokens came from a set/bag or q=2/q=3 tokenizer (a token cache shared
     # between differently configured tokenizers of one class would change them)
     'count-ws-bag': (['ws', False], lambda: (lambda a, b: float(len(a) * 10 + len(b))),
